@@ -1177,3 +1177,94 @@ func RecolorAll(p *Program, m Mode) *Program {
 	}
 	return q
 }
+
+// Compose returns the parallel composition of independent programs as one program: the
+// k-th component's type names, function names, top-level process names and print labels get
+// the suffix k (choice labels are local to types and stay). The components do not interact,
+// so the composition is well typed iff every component is, and its printed multiset is the
+// union of theirs. Declaration order: all types, all functions, all processes, all execs.
+func Compose(ps []*Program) *Program {
+	out := &Program{Feat: map[string]int{}}
+	for k, p0 := range ps {
+		p := p0.Clone()
+		sfx := fmt.Sprintf("c%d", k)
+		tmap := map[string]string{}
+		for _, td := range p.Types {
+			tmap[td.Name] = td.Name + sfx
+		}
+		var reTy func(t *Ty)
+		reTy = func(t *Ty) {
+			if t == nil {
+				return
+			}
+			if t.K == KName {
+				if n, ok := tmap[t.Name]; ok {
+					t.Name = n
+				}
+			}
+			reTy(t.L)
+			reTy(t.R)
+			for _, b := range t.Br {
+				reTy(b.T)
+			}
+		}
+		fmap := map[string]string{}
+		for _, f := range p.Funcs {
+			fmap[f.Name] = f.Name + sfx
+		}
+		reTerm := func(t *Term) {
+			Walk(t, func(x *Term) {
+				switch x.Op {
+				case "call":
+					if n, ok := fmap[x.Fn]; ok {
+						x.Fn = n
+					}
+				case "print":
+					x.Lbl = x.Lbl + sfx
+				case "new":
+					if x.Ann != nil {
+						x.Ann = x.Ann.Clone()
+						reTy(x.Ann)
+					}
+				}
+			})
+		}
+		for i := range p.Types {
+			reTy(p.Types[i].T)
+			p.Types[i].Name = tmap[p.Types[i].Name]
+			out.Types = append(out.Types, p.Types[i])
+		}
+		for _, f := range p.Funcs {
+			f.Name = fmap[f.Name]
+			reTy(f.Ret)
+			for j := range f.Params {
+				reTy(f.Params[j].T)
+			}
+			reTerm(f.Body)
+			out.Funcs = append(out.Funcs, f)
+		}
+		var tops []string
+		for _, pr := range p.Procs {
+			tops = append(tops, pr.Names...)
+		}
+		for _, pr := range p.Procs {
+			reTy(pr.T)
+			reTerm(pr.Body)
+			for _, n := range tops {
+				renameFree(pr.Body, n, n+sfx)
+			}
+			for j := range pr.Names {
+				pr.Names[j] += sfx
+			}
+			out.Procs = append(out.Procs, pr)
+		}
+		for _, e := range p.Execs {
+			out.Execs = append(out.Execs, fmap[e])
+		}
+		for f, n := range p0.Feat {
+			out.Feat[f] += n
+		}
+	}
+	out.Feat["composed"] = len(ps)
+	return out
+}
